@@ -901,6 +901,40 @@ fn raw_to_val_inner(r: &jbk::reader::RawValue) -> Result<Val, String> {
     })
 }
 
+/// The value of property `name` of the entry at absolute position `idx` of `store`, read through the TYPED property
+/// builders (`layout::Property::as_builder::<IntProperty | SignedProperty | ArrayProperty | ContentProperty>` + `create` on
+/// the entry's bytes), the way `layout_builder!` users do. `variant` = the entry's variant name when the property is one of
+/// its own. None = no typed builder accepts the property.
+pub fn typed_read(store: &jbk::reader::EntryStore, vstorage: &jbk::reader::ValueStorage, idx: jbk::EntryIdx, variant: Option<&str>, name: &str) -> Result<Option<Val>, String> {
+    use jbk::reader::builder::{ArrayProperty, ContentProperty, IntProperty, PropertyBuilderTrait, SignedProperty};
+    let layout = store.layout();
+    let prop = match layout.common.get(leak(name)) {
+        Some(p) => p,
+        None => match variant.and_then(|v| layout.get_variant(leak(v))).and_then(|vp| vp.get(leak(name))) {
+            Some(p) => p,
+            None => return Ok(None),
+        },
+    };
+    let reader = store.get_entry_reader(idx).ok_or("get_entry_reader: no such entry")?;
+    if let Some(b) = prop.as_builder::<IntProperty, _>(vstorage).map_err(|e| format!("as_builder<IntProperty>: {e}"))? {
+        return Ok(Some(Val::U(b.create(&reader).map_err(|e| format!("IntProperty::create: {e}"))?)));
+    }
+    if let Some(b) = prop.as_builder::<SignedProperty, _>(vstorage).map_err(|e| format!("as_builder<SignedProperty>: {e}"))? {
+        return Ok(Some(Val::S(b.create(&reader).map_err(|e| format!("SignedProperty::create: {e}"))?)));
+    }
+    if let Some(b) = prop.as_builder::<ContentProperty, _>(vstorage).map_err(|e| format!("as_builder<ContentProperty>: {e}"))? {
+        let c = b.create(&reader).map_err(|e| format!("ContentProperty::create: {e}"))?;
+        return Ok(Some(Val::C(c.pack_id.into_u16(), c.content_id.into_u32())));
+    }
+    if let Some(b) = prop.as_builder::<ArrayProperty, _>(vstorage).map_err(|e| format!("as_builder<ArrayProperty>: {e}"))? {
+        let a = b.create(&reader).map_err(|e| format!("ArrayProperty::create: {e}"))?;
+        let mut v = jbk::SmallBytes::new();
+        a.resolve_to_vec(&mut v).map_err(|e| format!("Array::resolve_to_vec: {e}"))?;
+        return Ok(Some(Val::A(v.to_vec())));
+    }
+    Ok(None)
+}
+
 /// Variant names by id, from the reader's layout.
 pub fn variant_names(store: &jbk::reader::EntryStore) -> Vec<String> {
     let mut names: Vec<(u8, String)> = vec![];
